@@ -15,6 +15,8 @@ func init() {
 			ruleEntryPresence(c)
 			// stale memory in a re-used slot reads an encoded nil back as the old non-nil pointer
 			ruleClearBeforeRead(c)
+			// a present value stays on the wire even when its body is empty: the tagged form always writes the tag
+			ruleFrame(c)
 		},
 	})
 	register(&propInfo{
@@ -30,6 +32,10 @@ func init() {
 			ruleSetLen(c)
 			ruleCountLoop(c)
 			ruleStructUntouched(c)
+			rulePointerWrapper(c)
+			ruleMapSlotMerge(c)
+			ruleCommaOk(c, internFuncs)
+			ruleClearJSON(c)
 			ruleSharedStateInventory(c)
 		},
 	})
